@@ -97,6 +97,15 @@ func c16Gen(r *RNG, id string) *Case {
 		vc.Set("via", "")
 		return relOf(vc, "layout", "eq")
 	}
+	if r.Chance(1, 400) {
+		// an alignment of several MiB (built from the case's parameters when the case runs, not carried in the case line):
+		// the reference look-up of `variants` against the list reader, for a reference record that lies across a 1 MiB
+		// boundary of the file (any reader that keeps slices of its scanner's buffer loses it there)
+		c := NewCase("C16", id)
+		c.SetInt("bigseed", r.Intn(1<<30)).SetInt("bignrec", r.Range(2600, 3600)).SetInt("bigwidth", r.Range(900, 1100)).SetInt("bigwrap", r.PickInt([]int{60, 70, 80}))
+		c.SetInt("bigmib", r.Range(1, 2))
+		return relOf(c, "bigref", "same")
+	}
 	if r.Chance(1, 10) {
 		// the `##FASTA` section reader of gff.ReadGFF against the list reader on the same text: a valid file (distinct
 		// IDs), as it is or with white space around one of its lines - both must read the same records or both refuse
@@ -371,6 +380,54 @@ func runGffFastaSection(text string) result {
 		}
 		return strings.Join(recs, sepRS), nil
 	})
+}
+
+// bigAlignmentText: the alignment of a "bigref" case and the ID of the record that contains byte offset mib * 2^20
+func bigAlignmentText(c *Case) (string, string) {
+	r := NewRNG(uint64(atoi(c.Get("bigseed"))))
+	n, w, wrap := atoi(c.Get("bignrec")), atoi(c.Get("bigwidth")), atoi(c.Get("bigwrap"))
+	base := randSeq(r, w, symACGT, false)
+	var b strings.Builder
+	target := atoi(c.Get("bigmib")) << 20
+	refID := ""
+	for i := 0; i < n; i++ {
+		start := b.Len()
+		fmt.Fprintf(&b, ">seq_%d sample %d\n", i, i)
+		s := mutateSeq(r, base, "ACGTN-", 1, 50, false)
+		for len(s) > 0 {
+			k := wrap
+			if k > len(s) {
+				k = len(s)
+			}
+			b.WriteString(s[:k] + "\n")
+			s = s[k:]
+		}
+		if refID == "" && start < target && b.Len() > target+200 {
+			refID = fmt.Sprintf("seq_%d", i)
+		}
+	}
+	if refID == "" {
+		refID = fmt.Sprintf("seq_%d", n/2)
+	}
+	return b.String(), refID
+}
+
+func runBigRef(c *Case) (a, b result) {
+	text, refID := bigAlignmentText(c)
+	a = safeRun(60*time.Second, func() (string, error) {
+		rs, err := fastaio.ReadEncodeAlignmentToList(strings.NewReader(text), false)
+		if err != nil {
+			return "", err
+		}
+		for _, fr := range rs {
+			if fr.ID == refID {
+				return renderEFR(fr, false), nil
+			}
+		}
+		return "", fmt.Errorf("no record %s", refID)
+	})
+	b = runFindReference(text, refID)
+	return a, b
 }
 
 func runFindReference(text string, refid string) result {
